@@ -59,6 +59,14 @@ class Lock:
         self.f.close()
 
 
+_T0 = time.time()
+
+
+def lap(what):
+    if os.environ.get("VERIF_TIMING"):
+        print(f"  [timing] {what}: {time.time() - _T0:.1f}s", file=sys.stderr)
+
+
 def regenerate_tables():
     rc, out = sh([sys.executable, os.path.join(ROOT, "tools", "gen_tables.py")], cwd=ROOT)
     broken = [l[len("BROKEN "):] for l in out.splitlines() if l.startswith("BROKEN ")]
@@ -333,11 +341,14 @@ def main():
     deps = generated_deps(cfg["module"])
     broken_tables = [b for b in broken_tables if b.split(":")[0] in deps or b.split(":")[0] in cfg.get("tables", [])]
     table_shas = {k: v for k, v in table_shas.items() if k in deps}
+    lap("tables")
     # 2. prove
     pr = prove(pid, cfg, thorough)
+    lap("prove")
     proof_ok = not pr["errors"] and pr["obligations"] > 0 and pr["discharged"] == pr["obligations"] and not broken_tables
     # 3. harness
     hrc, hout = build_harness()
+    lap("harness build")
     results = []
     harness_err = None
     if hrc != 0:
@@ -348,7 +359,9 @@ def main():
             if rc != 0:
                 harness_err = f"harness domain {dom} exited {rc}: {out[-2000:]}"
                 break
+            lap("harness run " + dom)
             ev = evaluate(ops)
+            lap("driver + compare " + dom)
             ev["domain"] = dom
             results.append(ev)
 
